@@ -1,1 +1,2 @@
+pub mod ir;
 pub mod spell;
